@@ -189,7 +189,7 @@ let () = each_line (fun line ->
       (try
         List.iter (fun tok ->
           incr n;
-          match String.split_on_char ':' tok with
+          try (match String.split_on_char ':' tok with
           | ["-"] -> ()
           | ["C"; p] -> step tok (EConn (n_of_string p))
           | ["D"; p] -> step tok (EDisc (n_of_string p))
@@ -204,6 +204,7 @@ let () = each_line (fun line ->
           | ["F"] -> step tok EDone
           | ["X"; i; h] -> step tok (EProbe (n_of_string i, bytes_of_hex h))
           | "S" :: rest -> reconcile (String.concat ":" rest)
-          | _ -> raise (Reject (Printf.sprintf "%d %s unknown event" !n tok))) (split_ws evs);
+          | _ -> raise (Reject (Printf.sprintf "%d %s unknown event" !n tok)))
+          with Invalid_argument m | Failure m -> raise (Reject (Printf.sprintf "%d %s malformed event (%s)" !n (if String.length tok > 400 then String.sub tok 0 400 else tok) m))) (split_ws evs);
         Printf.sprintf "ACCEPT n=%d syn=%d lc=%d rc=%d snaps=%d" !n !syn !lc !rc !snaps
       with Reject m -> "REJECT " ^ m))
